@@ -23,6 +23,7 @@ RULE = (
     "must raise, and the context registry must not keep dead entries. Alias-body part: documents whose body is a *name* (or `mk name`) bound to set literals by 1-4 "
     "let / with wrappers (with aliases, cycles and shadowing), read through source[\"k\"] twice: the value must be the one Nix designates, or an explicit failure, and "
     "the second access must agree with the first. Non-trivial = the name is bound at >=2 levels, or reached through inherit/with/a chain >=2."
+    ' Step scripts (`tworoute`, `withvalue`): one let-bound set reached as `with` environment, as value, after a CLI write or an earlier read; a `with <name>; { … }` binding value inside a (rec) set that gains or loses a binding between two lookups; two-step probes doc[x].value[k].value.'
 )
 ASSUMPTIONS = ["references to a sibling of a non-rec set and other situations the statement leaves undefined are not generated", "function-parameter resolution is reached through the internal wiring the repository's own tests use"]
 
